@@ -1442,6 +1442,9 @@ def convert_mul_max_to_abs_or_lrelu(op: Operation, arch, nng) -> Operation:
             # No Mul inputs
             return op
 
+        # make sure the Mul itself has been placed on the NPU: a Mul that stays on the CPU must not be absorbed
+        if not mul.run_on_npu:
+            return op
         # make sure the Mul doesn't have any other consumers
         mul_ofm = mul.outputs[0]
         if len(mul_ofm.consumers()) != 1:
